@@ -147,6 +147,10 @@ func genRecords(r *kit.RNG, zone string, simple bool) []string {
 	}
 	if r.Chance(0.6) {
 		out = append(out, fmt.Sprintf("*.w.%s %d IN A 192.0.2.%d", zone, ttl(), r.Range(1, 250)))
+		if r.Chance(0.5) {
+			// an existing name beside the wildcard, holding a type the wildcard lacks
+			out = append(out, fmt.Sprintf("host.w.%s %d IN TXT \"beside the wildcard\"", zone, ttl()))
+		}
 	}
 	if r.Chance(0.3) {
 		out = append(out, fmt.Sprintf("*.%s %d IN TXT \"wild %s\"", zone, ttl(), zone))
